@@ -64,11 +64,19 @@ Climb(ts, lhs, minp) ==
     IF s = "?" THEN
        (LET t == Expr(ts, lhs.pos + 1, 0)
             e == IF IsOp(ts, t.pos, ":") THEN Expr(ts, t.pos + 1, 0) ELSE R(0, t.pos, "syntax", 0)
-        IN R(IF lhs.v # 0 THEN t.v ELSE e.v, e.pos, Worse(lhs.bad, Worse(t.bad, e.bad)), Max(lhs.big, Max(t.big, e.big))))
+            \* a defect (division by zero, ...) in the alternative that is not selected: C does not evaluate it; whether a
+            \* compiler may still refuse it is not decided here ("undef")
+            taken == IF lhs.v # 0 THEN t ELSE e
+            other == IF lhs.v # 0 THEN e ELSE t
+            bad == Worse(lhs.bad, Worse(taken.bad, IF other.bad = "" THEN "" ELSE "undef"))
+        IN R(taken.v, e.pos, bad, Max(lhs.big, Max(t.big, e.big))))
     ELSE
        (LET rhs == Climb(ts, Unary(ts, lhs.pos + 1), Prec(s) + 1)
             a == Apply(s, lhs.v, rhs.v)
-        IN Climb(ts, R(a.v, rhs.pos, Worse(lhs.bad, Worse(rhs.bad, a.bad)), Max(lhs.big, rhs.big)), minp))
+            \* && and || do not evaluate their right operand when the left one decides: a defect there is "undef"
+            shortcut == (s = "&&" /\ lhs.v = 0) \/ (s = "||" /\ lhs.v # 0)
+            rbad == IF shortcut /\ rhs.bad # "" THEN "undef" ELSE rhs.bad
+        IN Climb(ts, R(a.v, rhs.pos, Worse(lhs.bad, Worse(rbad, a.bad)), Max(lhs.big, rhs.big)), minp))
 Expr(ts, i, minp) == Climb(ts, Unary(ts, i), minp)
 Eval(ts) == LET r == Expr(ts, 1, 0) IN IF r.pos # Len(ts) + 1 THEN [r EXCEPT !.bad = "syntax"] ELSE r
 
@@ -89,6 +97,8 @@ ASSUME Eval(<<N(0), O("?"), N(1), O(":"), N(0), O("?"), N(2), O(":"), N(3)>>).v 
 ASSUME Eval(<<N(1), O("?"), N(0), O("?"), N(5), O(":"), N(6), O(":"), N(7)>>).v = 6
 ASSUME Eval(<<N(1), O("||"), N(0), O("&&"), N(0)>>).v = 1
 ASSUME Eval(<<N(5), O("/"), N(0)>>).bad = "div0"
+ASSUME Eval(<<N(0), O("&&"), N(1), O("/"), N(0)>>).bad = "undef" /\ Eval(<<N(1), O("&&"), N(1), O("/"), N(0)>>).bad = "div0"
+ASSUME Eval(<<N(1), O("?"), N(2), O(":"), N(1), O("/"), N(0)>>).bad = "undef"
 ASSUME Eval(<<O("("), N(1), O("+"), N(2), O(")"), O("*"), N(3)>>).v = 9
 ASSUME Eval(<<N(300), O("*"), N(300)>>).big = 90000
 ASSUME Eval(<<N(2), O("*"), O("-"), N(3)>>).v = -6
